@@ -1,0 +1,69 @@
+//! Re-exports of crate-private internals for the external verification
+//! harness. Compiled only with the `verif-hooks` feature; contains no logic
+//! of its own.
+
+use std::collections::HashMap;
+
+use serde_json::Value;
+
+use super::envelope::{DSSEVersion, EnvelopeFile};
+use super::predicate::{LinkV02, SLSAProvenanceV01, SLSAProvenanceV02};
+use super::statement::{StateNaive, StateV01};
+use super::supply_chain_item::SupplyChainItem;
+use super::{LinkMetadata, PredicateVer, StatementVer};
+use crate::Result;
+
+/// `rulelib::apply_rules_on_link`
+pub fn apply_rules(
+    item: &Box<dyn SupplyChainItem>,
+    links: &HashMap<String, LinkMetadata>,
+) -> Result<()> {
+    crate::rulelib::apply_rules_on_link(item, links)
+}
+
+/// DSSE v1 pre-authentication encoding
+pub fn pae_pack(payload_type: String, payload: &[u8]) -> Vec<u8> {
+    DSSEVersion::V1.pack(payload, payload_type)
+}
+
+/// DSSE v1 pre-authentication decoding, returns (payload, payload type)
+pub fn pae_unpack(bytes: &[u8]) -> Result<(Vec<u8>, String)> {
+    DSSEVersion::V1.unpack(bytes)
+}
+
+/// DSSE auto-detecting decoding
+pub fn pae_try_unpack(bytes: &[u8]) -> Result<(Vec<u8>, String)> {
+    DSSEVersion::try_unpack(bytes)
+}
+
+/// Envelope file: parse, then re-serialise
+pub fn envelope_file_roundtrip(bytes: &[u8]) -> Result<Vec<u8>> {
+    EnvelopeFile::from_bytes(bytes)?.to_bytes()
+}
+
+/// Every predicate format version whose own parser accepts `value`
+pub fn predicate_versions_accepting(value: &Value) -> Vec<PredicateVer> {
+    let mut res = Vec::new();
+    if serde_json::from_value::<LinkV02>(value.clone()).is_ok() {
+        res.push(PredicateVer::LinkV0_2);
+    }
+    if serde_json::from_value::<SLSAProvenanceV01>(value.clone()).is_ok() {
+        res.push(PredicateVer::SLSAProvenanceV0_1);
+    }
+    if serde_json::from_value::<SLSAProvenanceV02>(value.clone()).is_ok() {
+        res.push(PredicateVer::SLSAProvenanceV0_2);
+    }
+    res
+}
+
+/// Every statement format version whose own parser accepts `value`
+pub fn statement_versions_accepting(value: &Value) -> Vec<StatementVer> {
+    let mut res = Vec::new();
+    if serde_json::from_value::<StateNaive>(value.clone()).is_ok() {
+        res.push(StatementVer::Naive);
+    }
+    if serde_json::from_value::<StateV01>(value.clone()).is_ok() {
+        res.push(StatementVer::V0_1);
+    }
+    res
+}
